@@ -45,18 +45,22 @@ def noisy_render(rng, toks):
     return bytes(out)
 
 
-def inject(rng, toks):
+def inject(rng, toks, names=()):
     toks = list(toks)
     if not toks:
         return [b"}"], "stray"
     i = rng.randrange(len(toks))
-    kind = rng.choice(["wrong", "badvalue", "unknown", "cut", "cut"])
+    kind = rng.choice(["wrong", "badvalue", "unknown", "cut", "cut"] + (["unknownpath"] if names else []))
     if kind == "wrong":
         toks[i] = rng.choice([b"}", b"=", b",", b"(", b")", b"{", b"+="])
     elif kind == "badvalue":
         toks[i] = rng.choice([b"9x", b"\"\\400\"", b"\"\\1234\"", b"zz"])
     elif kind == "unknown":
         toks.insert(i, b"nosuchname")
+    elif kind == "unknownpath":
+        # an unknown name written as a path: through a declared option (section, free-form section, scalar), through nothing
+        nm = rng.choice(list(names)).encode("latin1")
+        toks[i:i] = [rng.choice([nm + b"|nosuch", b"nosuch|" + nm, nm + b"|", b'"' + nm + b'=0|nosuch"', nm + b"|nosuch|deeper"]), b"=", b"1"]
     else:
         toks = toks[:i] + rng.choice([[], [b"\"unterminated"], [b"/* open"], [b"'open"]])
     return toks, kind
@@ -102,7 +106,7 @@ def generate(rng, tier):
                     body = body + [b"include", b"(", b'"' + prev_inc.encode() + b'"', b")"] + gen.gen_items(
                         rng, [o for o in opts if o.name != "include" and o.ty != "sec"], ctxflags, maxitems=2)
                 if where == "f%d" % k:
-                    body, kind = inject(rng, body)
+                    body, kind = inject(rng, body, [o.name for o in opts if o.name != "include"])
                 name = "inc%d.conf" % k
                 lines.append("FILE %s reg %s" % (hx(name), hx(noisy_render(rng, body))))
                 prev_inc = name
@@ -111,7 +115,7 @@ def generate(rng, tier):
                 tail = gen.gen_items(rng, [o for o in opts if o.name != "include"], ctxflags, maxitems=3)
                 main = main + [b"include", b"(", b'"' + prev_inc.encode() + b'"', b")"] + tail
             if where == "main":
-                main, kind = inject(rng, main)
+                main, kind = inject(rng, main, [o.name for o in opts if o.name != "include"])
             text = noisy_render(rng, main)
             lines += ["PB 0 " + hx(text)]
             # a second parse through cfg_parse (file) to exercise the other entry point
